@@ -635,7 +635,14 @@ class XsdElement(XsdComponent, ParticleMixin,
             _validation = context.validation_hook(obj, self)
             if _validation:
                 if isinstance(_validation, str) and _validation in XSD_VALIDATION_MODES:
+                    # The element and its descendants are processed with another validation
+                    # mode but share the collectors of errors, IDs and identity constraints.
+                    outer_context = context
                     context = _copy(context)
+                    context.errors = outer_context.errors
+                    context.id_map = outer_context.id_map
+                    context.identities = outer_context.identities
+                    context.id_list = outer_context.id_list
                     validation = _validation
                 else:
                     return Empty
